@@ -10,6 +10,8 @@
 From Coq Require Import List NArith Bool.
 From PG Require Import Model.VS Model.Term Model.Solver Model.Registry Proofs.VSLaws Proofs.AssocProofs Proofs.SolverSem
   Proofs.SolverStore Proofs.SolverTree.
+From Coq Require Import ZArith.
+From PG Require Import Model.Instances Proofs.SolverExamples.
 
 Section C03.
   Context {VS Vr : Type} (O : VSOps VS Vr) (L : VSLawful O) (veqb : Vr -> Vr -> bool).
@@ -51,6 +53,18 @@ Section C03.
       forall a : assignment, violates O a (terms pc) -> violates O a ti \/ violates O a tj.
   Proof. exact (prior_cause_entails O L). Qed.
 End C03.
+
+(* non-vacuity: the tree of a recorded NoSolution run over Range<Z> (a derived node over a NoVersions and a
+   dependency leaf) is a proof *)
+Example nosolution_tree_nonvacuous :
+  exists ts c1 c2 st log, resolve zvs Z.eqb 100 0%N 2%Z tr1 = (ONoSolution (TDerived ts None c1 c2), st, log, 8)
+    /\ tree_ok zvs reg1 0%N 2%Z (TDerived ts None c1 c2) /\ top_forbids_root zvs 0%N 2%Z (TDerived ts None c1 c2).
+Proof.
+  assert (E : exists ts c1 c2 st log, resolve zvs Z.eqb 100 0%N 2%Z tr1 = (ONoSolution (TDerived ts None c1 c2), st, log, 8))
+    by (vm_compute; do 5 eexists; reflexivity).
+  destruct E as (ts & c1 & c2 & st & log & E). exists ts, c1, c2, st, log. split; [exact E|].
+  exact (nosolution_tree_is_proof_partial zvs zlaw Z.eqb reg1 0%N 2%Z reg1_wf zeqb_eq 100 tr1 _ st log 8 tr1_wb E).
+Qed.
 
 Print Assumptions nosolution_tree_is_proof_partial.
 Print Assumptions tree_ok_derived_inv.
